@@ -410,6 +410,15 @@ Proof.
   - intros x. split; [|auto]. unfold lookrel. rewrite lookup_with_out. destruct (lookup _ x); [apply ole_refl|exact I].
 Qed.
 
+Lemma read_obs_ok s a k : op_ok s (read_obs s a k).
+Proof.
+  unfold read_obs. eapply op_ok_trans; [apply (read_state_ok s a k)|].
+  apply op_ok_le; [|apply WFJ_with_out].
+  apply le_intro; try reflexivity; try apply auxeq_refl.
+  - intros x; apply dle_refl.
+  - intros x. split; [|auto]. unfold lookrel. rewrite lookup_with_out. destruct (lookup _ x); [apply ole_refl|exact I].
+Qed.
+
 (** ======================= the precompile call ======================= *)
 
 (** unwinding plain entries is monotone for the body-mode relation (stores may differ) *)
@@ -714,7 +723,7 @@ Proof.
   - destruct p; try (simpl; first
       [ apply add_balance_ok | apply sub_balance_ok | apply set_nonce_ok | apply set_code_ok | apply set_state_ok
       | apply selfdestruct_ok | apply evm_create_ok | apply add_log_ok | apply set_refund_ok | apply sub_refund_ok
-      | apply access_addr_ok | apply access_slot_ok | apply touch_ok | apply read_state_ok | apply precompile_call_ok ]).
+      | apply access_addr_ok | apply access_slot_ok | apply touch_ok | apply read_obs_ok | apply precompile_call_ok ]).
     assert (Hbody : forall l s0, (list_sum (map psize l) <= n)%nat -> op_ok s0 (run_body l s0)).
     { induction l as [|x t IHl]; intros s0 Hl.
       - apply op_ok_refl.
